@@ -54,6 +54,7 @@ pub fn run<D: Dec>(prop: &str, rep: &mut Report) {
         rep.assumptions.push("outcome of F0 00 / F0 AA is not constrained by the statement (Up/SingleShot of that status key or an error are accepted)".into());
     }
 
+    static_counter_wraps::<D>(prop, set, rep);
     let long_run = {
         let (p, thorough) = (prop.to_string(), rep.thorough());
         std::thread::spawn(move || {
@@ -384,12 +385,8 @@ pub fn run<D: Dec>(prop: &str, rep: &mut Report) {
     rep.require("history bytes", hist_events, 1000);
 }
 
-/// Long runs of well-formed typing, for whatever counts bytes / events with a 32-bit integer (in the decoder or in a
-/// static).  The period is made of sequences that each agree with the reference on a fresh decoder (prefixed keys,
-/// Pause, PrintScreen … – most positions are inside a prefix context), verified against the reference on its first
-/// pass, then repeated: every later result must equal the first pass.  `n_dec` decoders run on `n_dec` threads with
-/// `bytes_each` bytes each: quick = 16 × 2^28 (2^32 calls in the process), thorough adds one decoder with > 2^32.
-fn long_cyclic_run<D: Dec>(prop: String, set: u8, n_dec: usize, bytes_each: u64) -> (u64, Vec<(String, String, J)>, String) {
+/// A prefix-rich stream of sequences that each agree with the reference on a fresh decoder and end between sequences.
+fn verified_period<D: Dec>(set: u8) -> (Vec<u8>, usize) {
     let r = ref_for(set);
     let typist = Typist::new(set, &r);
     let agrees = |seq: &[u8]| -> bool {
@@ -433,6 +430,59 @@ fn long_cyclic_run<D: Dec>(prop: String, set: u8, n_dec: usize, bytes_each: u64)
             left_out += 1;
         }
     }
+    (period, left_out)
+}
+
+/// Counters kept in static memory behind `advance_state` (hidden.rs): found by watching, set to just below each of their
+/// wrap-arounds, and the stream is decoded across the wrap in lock-step with the reference.  Must run before any other
+/// thread of the monitor is started.
+fn static_counter_wraps<D: Dec>(prop: &str, set: u8, rep: &mut Report) {
+    use crate::hidden::*;
+    let r = ref_for(set);
+    let (period, _) = verified_period::<D>(set);
+    if period.is_empty() {
+        return;
+    }
+    let mut d = D::fresh();
+    let mut ctx = Ctx2::default();
+    let mut i = 0usize;
+    let mut step = || -> Option<(String, String)> {
+        let b = period[i];
+        let c0 = ctx;
+        let want = ref_step(set, &r, &mut ctx, b);
+        let g = guarded(|| d.advance_state(b));
+        let bad = match &g {
+            Ok(g) => !want.accepts(g),
+            Err(_) => true,
+        };
+        i = (i + 1) % period.len();
+        if bad {
+            let gs = match &g {
+                Ok(g) => res_str(g),
+                Err(p) => format!("PANIC({})", panic_sig(p)),
+            };
+            // start again between sequences with a fresh decoder
+            d = D::fresh();
+            ctx = Ctx2::default();
+            i = 0;
+            return Some((
+                format!("{}|{}|static-counter-wrap|ctx={}|byte=0x{:02X}|want={}|got={}", prop, set_name(set), c0.name(), b, want.show(), gs),
+                format!("{} decoder, well-formed typing: byte 0x{:02X} in context {} returned {}; the table says {}", set_name(set), b, c0.name(), gs, want.show()),
+            ));
+        }
+        None
+    };
+    counter_wraps(rep, &format!("{}::advance_state", if set == 1 { "ScancodeSet1" } else { "ScancodeSet2" }), &mut step, 2 * period.len().max(400));
+}
+
+/// Long runs of well-formed typing, for whatever counts bytes / events with a 32-bit integer (in the decoder or in a
+/// static).  The period is made of sequences that each agree with the reference on a fresh decoder (prefixed keys,
+/// Pause, PrintScreen … – most positions are inside a prefix context), verified against the reference on its first
+/// pass, then repeated: every later result must equal the first pass.  `n_dec` decoders run on `n_dec` threads with
+/// `bytes_each` bytes each: quick = 16 × 2^28 (2^32 calls in the process), thorough adds one decoder with > 2^32.
+fn long_cyclic_run<D: Dec>(prop: String, set: u8, n_dec: usize, bytes_each: u64) -> (u64, Vec<(String, String, J)>, String) {
+    let r = ref_for(set);
+    let (period, left_out) = verified_period::<D>(set);
     let in_prefix_context = {
         let mut ctx = Ctx2::default();
         let mut n = 0usize;
